@@ -443,7 +443,8 @@ def shards(tier):
         if name in FEEDBACK and FEEDBACK[name][1][1] == pk:
             continue        # the feedback input is written by a CBlock inside the simulator task: an unknown event raised
                             # there is an error of the circuit itself and does stop the simulation
-        params = {'name': name, 'nburst': 1 if tier == 'quick' else 2, 'picky_input': pk, 'first_target': pk}
+        # one change per burst in both tiers: measured - with two changes these shards take 30-50 CPU-minutes each
+        params = {'name': name, 'nburst': 1, 'picky_input': pk, 'first_target': pk}
         if name == 'ladder':
             params.update(nburst=1, order_budget=6)
         out.append({'name': f'catalog {name} unknown event behind input {pk}', 'scenario': 'scen_catalog',
